@@ -114,8 +114,8 @@ Example C01_nonvacuous :
   (exists v w, deb_ctor (list_ascii_of_string "1:1.0~rc1-2") = Ok v /\ deb_ctor (list_ascii_of_string "1:1.0-2") = Ok w /\
                dok v = true /\ dok w = true /\ deb_cmp v w = Lt).
 Proof.
-  repeat split; try (vm_compute; reflexivity).
-  eexists. eexists. repeat split; vm_compute; reflexivity.
+  split; [vm_compute; reflexivity|]. split; [vm_compute; reflexivity|]. split; [vm_compute; reflexivity|].
+  eexists. eexists. split; [vm_compute; reflexivity|]. split; [vm_compute; reflexivity|]. repeat split; vm_compute; reflexivity.
 Qed.
 
 Print Assumptions C01_laws_of_a_total_preorder.
